@@ -175,6 +175,9 @@ func (w *world) finish() {
 	if w.ev != nil {
 		w.ev.finish(w)
 	}
+	if w.ar != nil {
+		w.ar.finish()
+	}
 }
 
 func emit(r *hx.Run, res *caseResult) {
@@ -247,6 +250,16 @@ func main() {
 	add([]string{"ar arity 3", "ar new 0", "ar new 2", "ar hook 0 0", "ar hook 1 1", "ar link 1 0", "ar trigger 0 312", "ar trigger 0 123", "ar trigger 1 231", "ar tcount 1"},
 		[]string{"ar arity 9", "ar new 0", "ar hook 0 0", "ar trigger 0 987654321", "ar trigger 0 123456789"},
 		[]string{"ar arity 0", "ar new 1", "ar hook 0 0", "ar trigger 0 0", "ar trigger 0 0", "ar tcount 0"})
+	// hook-level pool options on a pooled event, for every arity: in place although the event has a pool, the hook's own
+	// pool instead of the event's, the event's pool for a hook without option, a link to a pooled target
+	for n := 0; n <= 9; n++ {
+		d := "123456789"[:n]
+		if n == 0 {
+			d = "0"
+		}
+		add([]string{fmt.Sprintf("ar arity %d", n), "ar new 0 pool", "ar new 0", "ar hook 0 0 inplace", "ar hook 0 0 pool", "ar hook 0 0", "ar hook 0 2 inplace", "ar hook 1 0", "ar hook 1 0 pool",
+			"ar link 1 0", "ar trigger 0 " + d, "ar trigger 0 " + d, "ar trigger 1 " + d, "ar unlink 1", "ar trigger 0 " + d})
+	}
 	add([]string{"mn 0 0 3 1 0", "mn 2 1 4 0 0 1", "mn 0 0 2 2", "mn 1 0 5 0", "mn 0 2 3 3 1 2 0",
 		"mn 18446744073709551615 0 3 9223372036854775808 1", "mn 9223372036854775807 1 2 0 18446744073709551614 9223372036854775806"})
 	gen := func(n int, g func(rng *hx.Rng) []string) {
